@@ -73,6 +73,7 @@ type Translator struct {
 	protected      []string
 	protectedTypes map[string]types.Type
 	appendView     bool
+	metaSchema     map[string]interface{}
 	inlineAnyway   map[string]bool
 	uninterpStrings bool
 	finfo          []factInfo
